@@ -167,6 +167,35 @@ theorem c16_digest_replay_refused (P : Prims) (cfg : Cfg) (m e : Int) (ops : Lis
     · exact hb hrealm
     · rw [hnonce] at hb; exact hb hfresh
 
+/-- Digest responses are bound to the request's own method, with the request taken from what
+    the client actually sent: for an HTTP/2 request built by the real header path
+    (`h2Request`: http_request_parse_header() per field, http_request_validate_pseudohdrs(),
+    http_request_parse()), a served request's response equals KD(…, H(method:uri)) for the
+    ":method" of its header list.  The one exception is the RFC 8441 extended CONNECT — the
+    list contains ":method: CONNECT" AND ":protocol: websocket" — whose response may be bound
+    to "GET" instead.  A ":protocol" next to any other method, before or after ":method",
+    opens nothing. -/
+theorem c16_digest_method_bound (P : Prims) (cfg : Cfg) (m e : Int) (ops : List Op)
+    (fields : List (Bytes × Bytes)) (req : Req) (ridx : Nat) (rule : Rule) (u : Bytes) (d n : Bool)
+    (hreq : h2Request fields = .ok req)
+    (hf : findRule cfg.rules req.path 0 = some (ridx, rule)) (hs : rule.scheme = .digest)
+    (h : (handle P cfg (run P cfg (init m e) ops) req).2 = .go u d n) :
+    (ofString ":method", req.method) ∈ fields ∧
+    ∃ hdr dalgo hA1, req.auth = some hdr ∧
+      (hex2bin ((parseAuthorization (hdr.drop 7)).response.getD [])
+          = some (kd P dalgo hA1 (parseAuthorization (hdr.drop 7)) req.method)
+       ∨ (req.method = ofString "CONNECT" ∧ (ofString ":protocol", ofString "websocket") ∈ fields ∧
+          hex2bin ((parseAuthorization (hdr.drop 7)).response.getD [])
+            = some (kd P dalgo hA1 (parseAuthorization (hdr.drop 7)) (ofString "GET")))) := by
+  obtain ⟨hmeth, hproto⟩ := h2Request_from hreq
+  obtain ⟨hdr, hh, hv⟩ := c16_digest_sound P cfg m e ops req ridx rule u d n hf hs h
+  obtain ⟨_, dp, nonce, dalgo, dlen, name, hA1, hdp, _, _, _, _, _, _, _, _, hresp, _⟩ := hv
+  subst hdp
+  refine ⟨hmeth, hdr, dalgo, hA1, hh, ?_⟩
+  rcases responseMatches_bound hresp with h1 | ⟨h1, h2, h3⟩
+  · exact Or.inl h1
+  · exact Or.inr ⟨h1, hproto h2, h3⟩
+
 /-- The extracted base64 table (base64.c, regenerated on every run) inverts the standard
     alphabet and marks '=' as padding: the decoder reads credentials the way RFC 4648 writes them. -/
 theorem c16_base64_table_inverse :
@@ -195,6 +224,14 @@ example : (handle Ex.P Ex.cfg Ex.st0 (Ex.digestReq "GET" "alice" "/dig/y" "f74d7
 example : (handle Ex.P Ex.cfg (advance Ex.cfg 601 Ex.st0)
              (Ex.digestReq "GET" "alice" "/dig/x" "f74d7460a65e2bc2f0d9787b75f3d477")).2
     = .refuse (.s401d 2 true) := by decide +kernel
+-- c16_digest_method_bound: over HTTP/2, alice's GET-bound digest with ":method: POST" followed by
+-- ":protocol: websocket" is refused; the same digest on a genuine extended CONNECT is served
+example : ((h2Request (Ex.h2Fields [(":method", "POST"), (":protocol", "websocket"), (":scheme", "https"),
+              (":path", "/dig/x"), (":authority", "h")] "f74d7460a65e2bc2f0d9787b75f3d477")).toOption.map
+            fun r => (handle Ex.P Ex.cfg Ex.st0 r).2) = some (.refuse (.s401d 0 false)) := by decide +kernel
+example : ((h2Request (Ex.h2Fields [(":protocol", "websocket"), (":method", "CONNECT"), (":scheme", "https"),
+              (":path", "/dig/x"), (":authority", "h")] "f74d7460a65e2bc2f0d9787b75f3d477")).toOption.map
+            fun r => (handle Ex.P Ex.cfg Ex.st0 r).2) = some (.go (ofString "alice") true false) := by decide +kernel
 -- bob authenticates but the rule authorizes only alice: refused (and cached H(A1) does not help him)
 example : (handle Ex.P Ex.cfg Ex.st0 (Ex.digestReq "GET" "bob" "/dig/x" "9fe9b187d0dc3112020e9162e9613e7c")).2
     = .refuse (.s401d 0 true) := by decide +kernel
